@@ -23,7 +23,7 @@ T = {
          "Every schedule of producer + N workers up to the stated preemption bound at the designated points is executed on the real pipeline; the set of archive hashes over all schedules and all N must be a singleton.",
          "sequentially consistent atomics (shuttle); stretches between designated points run uninterrupted; zstd cap hook on"),
  "C05": ("model_checking", "§4 C05", "explicit-state protocol model (all interleavings, N<=3) bound to the code by replaying every explored real schedule on the model + enabledness agreement",
-         "The protocol model of producer/queue/workers/barrier is explored to ALL reachable states (every interleaving, no preemption bound): deadlock-free, acyclic, every terminal state final; every real-pipeline execution explored by schedx (deviation bound 2/3, N<=3(4), 24 scenarios incl. back-pressure, sync rounds, oversized item, finalize-only) is replayed on the model (enabledness agreement at every blocking event); deadlock / livelock on the real code is detected directly by the controlled scheduler and the archive of every distinct outcome is checked for completeness.",
+         "The protocol model of producer/queue/workers/barrier is explored to ALL reachable states (every interleaving, no preemption bound): deadlock-free, acyclic, every terminal state final; every real-pipeline execution explored by schedx (deviation bound 2/3, N<=3(4), 24 scenarios incl. back-pressure, sync rounds, oversized item, finalize-only) is replayed on the model (enabledness agreement at every blocking event); the evidence also reports how many model transitions those real executions realise (model-edge coverage; model paths are not forced onto the code); deadlock / livelock on the real code is detected directly by the controlled scheduler and the archive of every distinct outcome is checked for completeness.",
          "size bounds (N<=3, <=4 contigs, <=3 rounds); model abstraction of segment data"),
  "C06": ("model_checking", "§4 C06", "stateless exhaustive enumeration of operation interleavings on the real queue against a reference multiset (+ preemption-bounded schedules of real blocking threads)",
          "Every interleaving of atomic queue operations of <=2 producers, <=3 consumers and a closer (capacity 2,3; priorities with ties; sizes 0..cap+1) is executed on the real MemoryBoundedQueue; len/bytes/closed, returned item, exactly-once and the drain after close are compared with the model after every step; the wake-up level runs the same scripts as real blocking threads under the controlled scheduler.",
